@@ -71,8 +71,23 @@ def shape_export(kind, exports):
     return sh
 
 
+def shape_reevaluates(B):
+    from vf.props import shapes as S
+    res = S.resolver(B)
+    root = B.I.hget(B.st, res).fields["current_scope"]
+    inner = S.scope(B, res, root, symbols={"e": B.int("v_inner")})
+    B.I.hmut(B.st, B.I.hget(B.st, res).fields["scopes"]).items.append(inner)
+    return {"expression": S.expr_ident(B, "e"), "resolver": res, "tok": S.tok(B, "IDENTIFIER", "e"), "v1": B.int("v1"), "v2": B.int("v2")}
+
+
+def value_node_cases(E):
+    return [Case(H + "expression_node_reevaluates_contract", "`e` rebound between two calls, then read from an inner scope that defines its own `e`", shape_reevaluates,
+                 target=["a816.parse.nodes.ExpressionNode.get_value", "a816.parse.nodes.ExpressionNode.__init__", "a816.parse.nodes.ExpressionNode.get_value_string_len"],
+                 drop_overrides=["a816.parse.ast.expression.eval_expression"])]
+
+
 def cases(E):
-    cs = []
+    cs = value_node_cases(E)
     for bc in [("lorom", "1"), ("lorom", "1_mirror"), ("hirom", "1"), ("lorom", "2")]:
         cs.append(Case(H + "phase_agreement_contract", f"{bc[0]}:{bc[1]}", shape_phase(bc), target=[P + "resolve_labels", P + "emit"], timeout_ms=40000))
     cs.append(Case(H + "label_node_contract", "any in-window address", shape_label, target=[N + "LabelNode.pc_after", N + "LabelNode.emit"]))
@@ -85,6 +100,9 @@ def cases(E):
     # passes replay; errors of expanded statements propagate): labels and parameters live in those scopes
     from vf.props import expansion
     cs += expansion.cases(E)
+    # every block / named scope / application / iteration gets a scope object of its own (never an earlier sibling's)
+    from vf.props import C08 as _c08
+    cs += _c08.scope_creation_cases(E)
     return cs
 
 
